@@ -9,6 +9,7 @@ import tempfile
 
 import runcheck
 import runoracle
+import s_ctor
 
 PID = "C17"
 CHUNK = 4
@@ -27,7 +28,13 @@ compare = runcheck.compare
 
 
 def gen_cases(tier, seed):
-    return runcheck.gen_cases_for(PID, tier, seed, per_strategy_quick=250, per_strategy_thorough=2500, fault=True)
+    # constructor streams (exact): time frame / step count, legacy keys, class_from_str, Strategy.__init__ options,
+    # Scenario.run's option injection, component construction - see harness/s_ctor.py
+    yield from s_ctor.cases_for(CTOR_STREAMS, tier, seed, PID)
+    yield from runcheck.gen_cases_for(PID, tier, seed, per_strategy_quick=250, per_strategy_thorough=2500, fault=True)
+
+
+CTOR_STREAMS = ["time", "legacy", "class", "stratinit", "runopts", "components", "simopts", "sanitize", "cfg"]
 
 
 def data_fault(full, rng):
@@ -56,6 +63,8 @@ def data_fault(full, rng):
 
 
 def eval_case(case):
+    if case.get("ctor"):
+        return s_ctor.eval_case(case)
     full = runcheck.build_case(case)
     if "scenario" not in case and case.get("family") != "builder" and case.get("i", 0) % 6 == 4:
         full = copy.deepcopy(full)
